@@ -74,8 +74,16 @@ func runC19(c *kit.Ctx) {
 		c.Check(nAll == 1, lit, "close-all", lit.Pos(), "the close literal calls clients.closeAll()", "Close no longer closes the cached connections")
 		adminClosed := false
 		for _, call := range kit.Calls(lit, hrpcRC+"Close") {
-			if cc, ok := call.Common().Value.(*ssa.Call); ok && kit.CalleeName(cc) == hrpcRI+"Client" && isLoadOfField(cc.Call.Value, adminF) {
-				adminClosed = true
+			// the receiver is adminRegionInfo.Client(), directly or through a local that is nil otherwise
+			recv := kit.Strip(call.Common().Value)
+			leaves := []ssa.Value{recv}
+			if ph, ok := recv.(*ssa.Phi); ok {
+				leaves = kit.PhiLeaves(ph)
+			}
+			for _, lv := range leaves {
+				if cc, ok := kit.Root(lv).(*ssa.Call); ok && kit.CalleeName(cc) == hrpcRI+"Client" && isLoadOfField(cc.Call.Value, adminF) {
+					adminClosed = true
+				}
 			}
 		}
 		c.Check(adminClosed, lit, "close-master", lit.Pos(), "the master connection of an admin client is closed", "Close no longer closes the admin client's master connection")
@@ -324,6 +332,10 @@ func runC19(c *kit.Ctx) {
 			c.Bad(put, "closed-flag", factoryCall.Pos(), "nothing tells clientRegionCache.put that the client was closed: an establisher that is past its last closed-signal test when Close runs creates, dials and probes a new connection after Close returned, and leaves it (two goroutines, one socket) open", "closeAll sets no closed indication under the cache lock")
 		} else {
 			c.Check(le.At(flagStore).HoldsField(rccM, true), closeAll, "flag-set-under-lock", flagStore.Pos(), "closed flag set under the cache lock", "the closed flag is set without the cache lock")
+			// ... on every way through closeAll (also when there is nothing to close yet: the first establisher
+			// may still be looking its server up)
+			skipped := mustPass(closeAll, func(x ssa.Instruction) bool { return x == ssa.Instruction(flagStore) }, nil)
+			c.Check(skipped == nil, closeAll, "flag-set-always", flagStore.Pos(), "every way through closeAll sets the closed flag", "closeAll can return without setting the closed flag (e.g. when the cache is still empty): an establisher that is still looking its server up creates, dials and probes a connection after Close returned, and later requests are served over it: "+c.BlockPath(skipped))
 			// the store precedes the closing loop
 			var rng *ssa.Range
 			kit.Instrs(closeAll, func(in ssa.Instruction) {
@@ -362,21 +374,18 @@ func runC19(c *kit.Ctx) {
 					if !ok || !kit.IsNilConst(cmp.Y) {
 						continue
 					}
-					for _, rr := range kit.Referrers(bo) {
-						iff, ok := rr.(*ssa.If)
-						if !ok {
-							continue
-						}
-						nilB := kit.SuccOnTrue(iff)
-						if cmp.Op == token.NEQ {
-							nilB = kit.SuccOnFalse(iff)
-						}
-						e := kit.PathFromBlock(nilB, kit.PathQuery{Target: func(in ssa.Instruction) bool {
+					if cmp.Op != token.EQL && cmp.Op != token.NEQ {
+						continue
+					}
+					// with the comparison known to say "nil" no way leads to a use of a connection (the comparison
+					// may feed a branch directly, or a boolean a helper returns)
+					e := kit.PathFrom(bo, kit.PathQuery{
+						Known: []kit.Fact{{Cond: bo, Pol: cmp.Op == token.EQL}},
+						Target: func(in ssa.Instruction) bool {
 							cc, ok := in.(ssa.CallInstruction)
 							return ok && cc.Common().IsInvoke()
 						}})
-						good = e == nil
-					}
+					good = e == nil
 				}
 				c.Check(good, est, "refusal-handled", call.Pos(), "a nil connection from put (client closed) makes the establisher return", "establishRegion does not handle put refusing to create a connection after Close")
 			}
